@@ -488,7 +488,7 @@ def alphabet(pool, profile):
       "tiny"  nine labels: the scoping skeleton (out, set, if, for, with, macro, call)
       "tiny2" nine labels: block set, filter block, recursive loop, namespace store
       "tiny3" twelve labels: macro parameters/defaults, call block, caller, break
-      "alias5" eight labels on three variables (out, set, copies, if, for)
+      "alias5" eight labels on three variables (out, set, copies, for, with)
       "deep1" six labels on one variable (out, set, read-modify-write, if, for, with)
       "macro5" five labels on one variable (out, set, read-modify-write, macro, call)
       "alias" set / out / if / for / with on the whole pool (can-alias subset)
@@ -498,17 +498,17 @@ def alphabet(pool, profile):
     pairs = [(x, y) for x in P for y in P if x != y]
     if profile == "full":
         a["out"] = ([V(x) for x in P] + [("add1", V(x)) for x in P] + [("def", x) for x in P]
-                    + [("cat", V(x), V(y)) for x, y in pairs] + [C(1), ("nsget", NS, "x")])
+                    + [("cat", V(x), V(y)) for x, y in pairs] + [("nsget", NS, "x")])
         a["set"] = ([(x, C(1)) for x in P] + [(x, C(2)) for x in P] + [(x, V(y)) for x, y in pairs]
                     + [(x, ("add1", V(x))) for x in P] + [(x, ("cat", V(x), V(y))) for x, y in pairs]
-                    + [(x, ("def", x)) for x in P] + [(x, V(x)) for x in P])
+                    + [(x, V(x)) for x in P])
         a["if"] = [(("flag", "f"),), (("flag", "f"), ("flag", "g"))]
         a["for"] = ([(x, "l12", None) for x in P] + [(x, "empty", None) for x in P]
                     + [(x, "l12", ("odd", x)) for x in P] + [(x, "l12", ("flag", "f")) for x in P]
                     + [(x, "l12", ("def", y)) for x, y in pairs])
         a["loopctl"] = [("break",), ("continue",)]
         a["with"] = ([()] + [((x, C(1)),) for x in P] + [((x, V(y)),) for x, y in pairs]
-                     + [((x, V(x)),) for x in P] + [((x, ("add1", V(x))),) for x in P]
+                     + [((x, V(x)),) for x in P]
                      + [((x, V(y)), (y, V(x))) for x, y in pairs])
         a["macro"] = ([()] + [((x, None),) for x in P] + [((x, C(1)),) for x in P]
                       + [((x, V(y)),) for x, y in pairs] + [((x, V(x)),) for x in P]
@@ -548,9 +548,9 @@ def alphabet(pool, profile):
     elif profile == "core":
         x, y = P[0], P[1]
         a["out"] = [V(x), V(y)]
-        a["set"] = [(x, C(1)), (y, C(2)), (x, V(y)), (x, ("add1", V(x)))]
+        a["set"] = [(x, C(1)), (x, V(y))]
         a["if"] = [(("flag", "f"),)]
-        a["for"] = [(x, "l12", None), (y, "l12", None)]
+        a["for"] = [(y, "l12", None)]
         a["with"] = [(), ((x, V(y)),)]
         a["macro"] = [(), ((x, None),)]
         a["call"] = [("call", MACRO, (), ()), ("call", MACRO, (V(y),), ())]
@@ -608,8 +608,8 @@ def alphabet(pool, profile):
         x, y, z = P[0], P[1], P[2]
         a["out"] = [V(x), V(y), V(z)]
         a["set"] = [(x, C(1)), (y, V(x)), (z, V(y))]
-        a["if"] = [(("flag", "f"),)]
         a["for"] = [(z, "l12", None)]
+        a["with"] = [()]
     elif profile == "alias":
         a["out"] = [V(v) for v in P]
         a["set"] = [(v, C(1)) for v in P] + [(v, V(w)) for v, w in pairs]
